@@ -24,10 +24,10 @@ SELECTIONS = [
     [],
     [dict(model="GENROU", varname="omega")],
     [dict(model="Bus")],
-    [dict(model="Bus", varname="v"), dict(model="GENROU", varname="omega", dev="2")],
+    [dict(model="Bus", varname="v"), dict(model="GENROU", varname="omega", dev=2)],
     # overlapping entries: a whole variable plus one device of the same model
-    [dict(model="GENROU", varname="omega"), dict(model="GENROU", dev="3")],
-    [dict(model="Bus", varname="v", dev="5"), dict(model="Bus", varname="v"), dict(model="TGOV1")],
+    [dict(model="GENROU", varname="omega"), dict(model="GENROU", dev=3)],
+    [dict(model="Bus", varname="v", dev=5), dict(model="Bus", varname="v"), dict(model="TGOV1")],
 ]
 
 
